@@ -255,6 +255,8 @@ TOKEN_SPECS = [
     'grammar k;\nID = /[a-z]+/;\nstart = ID "a" "ab" "abc" "b" "ba" "if" "in" "int";\n',
     'grammar m;\nHEX = /0x[0-9a-f]+/;\nNUM = /[0-9]+/;\nFLT = /[0-9]+\\.[0-9]+/;\nID = $ID;\nstart = HEX NUM FLT ID "0" "00";\n',
     'grammar o;\nAA = /ab|cd/;\nBB = /ab/;\nCC = /cd/;\nDD = "ab";\nstart = AA BB CC DD;\n',
+    # names that differ only in letter case: the order must still be a total one
+    'grammar c;\nID = /[a-z]+/;\nNUM = /[0-9]+/;\nstart = ID NUM "e" "E" "ab" "AB" "Ab" "aB" "if" "IF" "If" "iF" "x" "X";\n',
 ]
 
 
@@ -349,7 +351,7 @@ def check(tier):
         vtexts.append((text, obs))
     tspecs = list(TOKEN_SPECS)
     for _ in range(20 if tier == "quick" else 150):
-        kws = rng.sample(["if", "in", "int", "a", "ab", "abc", "b", "do", "done", "x1"], rng.randint(1, 6))
+        kws = rng.sample(["if", "in", "int", "a", "ab", "abc", "b", "do", "done", "x1", "IF", "In", "A", "AB", "Ab", "B", "DO"], rng.randint(1, 8))
         pats = rng.sample([("ID", "/[a-z][a-z0-9]*/"), ("NUM", "/[0-9]+/"), ("AB", "/(ab)+/"), ("AS", "/a+/"), ("AL", "/[a-c]+/"), ("DS", "/d(o|one)?/")], rng.randint(1, 4))
         tspecs.append("grammar t;\n" + "\n".join("%s = %s;" % p for p in pats) + "\nstart = " + " ".join([p[0] for p in pats] + ['"%s"' % k for k in kws]) + ";\n")
     tres = C.hook_batch([{"op": "term_map", "text": t} for t in tspecs])
